@@ -296,12 +296,38 @@ def build_cfg(B, flat):
 # ---------------------------------------------------------------------------
 # running the real code with recording
 # ---------------------------------------------------------------------------
+def order_issue(dump):
+    """the block ordering the cache starts a rewrite with must be the physical one: in every chain, a block ends where
+    the next begins or earlier, and a zero-sized block stands in front of the non-empty block at its address (judged on
+    the state before the first operation, when every address is still the input's)"""
+    ivs = {i["id"]: i for i in dump["intervals"]}
+    blk = {b["id"]: b for b in dump["blocks"]}
+
+    def addr(b):
+        iv = ivs.get(b.get("bi"))
+        return None if iv is None or iv["addr"] is None else iv["addr"] + b["off"]
+
+    for sect, chains in dump.get("order", []):
+        for ch in chains:
+            for x, y in zip(ch, ch[1:]):
+                bx, by = blk.get(x), blk.get(y)
+                if bx is None or by is None:
+                    continue
+                ax, ay = addr(bx), addr(by)
+                if ax is None or ay is None:
+                    continue
+                if ax > ay or (ax == ay and bx["size"] != 0 and by["size"] == 0):
+                    return "the cache lists block %d (address %#x, %d bytes) in front of block %d (address %#x, %d bytes)" % (x, ax, bx["size"], y, ay, by["size"])
+    return None
+
+
 class Recorder:
     def __init__(self, module):
         self.module = module
         self.idm = irdump.IdMap()
         self.records = []
         self.on_op = None
+        self.order_issue = None
 
     def close_iteration(self, dump):
         """the state at the end of the loop iteration of _apply_modifications that made the last recorded call (the
@@ -320,6 +346,8 @@ class Recorder:
             rec.close_iteration(before)
             patch = irdump.dump_patch(code, rec.idm, rec.module)
             op = {"kind": "insert", "block": rec.idm.of(block), "offset": offset, "repl": replacement_length, "patch": patch}
+            if not rec.records:
+                rec.order_issue = order_issue(before)
             r = {"before": before, "do": op}
             rec.records.append(r)
             try:
@@ -338,6 +366,8 @@ class Recorder:
             before = irdump.dump_ir(rec.module, rec.idm, cache)
             rec.close_iteration(before)
             op = {"kind": "delete", "block": rec.idm.of(block), "offset": offset, "length": length, "proxy": bool(retarget_to_proxy)}
+            if not rec.records:
+                rec.order_issue = order_issue(before)
             r = {"before": before, "do": op}
             rec.records.append(r)
             try:
